@@ -9,8 +9,8 @@ CLAIMS = {
    text="Proof, for all libraries and all query paths, that the model of find_global obeys the documented rules (explicit entry wins; explicit segment beats `*`, `*` is the fallback; struct segments continue in the struct; any absorbs; on wildcard/struct/any-free libraries the result is exactly: key -> its field, proper prefix of keys -> implicit read-only table, else absent), is total when every named struct exists (and reaches the panic otherwise), does not depend on key order, that a known root always resolves, and that writes follow the writability table with every assignment target judged independently. Tied to /repo by evaluating the real find_global/global_has_fields and the incorrect_standard_library_use diagnostics of generated programs against model and rules inside coqc.",
    note="Trusted: the trie built by extract_into_tree is modelled extensionally (construction covered by correspondence only); name-path extraction and scope resolution are oracles here (real ScopeManager); W1 repaired by a fix: commit."),
  "C08": dict(level="proof", design="3/C08",
-   text="PARTIAL proof + evaluated specification. Proved for every input (no well-formedness needed): with no accepted filter the pass is the identity; a diagnostic whose lint no accepted filter names is emitted unchanged and in place (frame property for other lints). The full statement 'machine = innermost covering filter for the lint, else the global one, else unchanged' (C08_filter_correct_statement) is written in Coq against a verbatim model of filter_diagnostics and an independent declarative specification and is EVALUATED by coqc on every case (real traversal + real lints end to end against the neutralised twin; the real filter_diagnostics driven with diagnostics on every range endpoint +-1), but its general proof is still open; the proof plan is in DESIGN.md.",
-   note="Trusted: full_moon trivia attachment/traversal order (taken from the real traversal through a cfg(selene_verif) hook, wf_filters evaluated per dump); stable sort; the open proof obligation named above."),
+   text="Machine-checked proof (about 1500 lines of Coq, no axioms) that a verbatim model of filter_diagnostics - ordered insertion of Push/Pop instructions, anonymous pops, lazy replay against stably sorted diagnostics, conflict tracking, globals pushed last - computes, for every well-formed filter family and every list of diagnostics, exactly the declarative specification: the accepted inline filter for the lint with the smallest range containing the diagnostic's start decides (first declared among equal ranges), else the accepted global one, else the diagnostic is unchanged; content and order of the output, failures included; hence the `expect` on an empty stack is unreachable. Without any well-formedness assumption: diagnostics of lints no filter names pass unchanged and in place. The model is tied to /repo by driving the real filter_diagnostics (through a cfg hook) with diagnostics on every range endpoint +-1, by parse_comment on generated texts, and end to end (real traversal, real lints) against the filter-neutralised twin; the theorem's hypothesis wf_ok is evaluated on every dump.",
+   note="Trusted: full_moon's trivia attachment and traversal order (taken from the real traversal; wf_ok checked per dump, not proved of the parser); Vec::sort_by_key stable; hook code."),
  "C09": dict(level="proof", design="3/C09",
    text="Proof over the verbatim model of filter_diagnostics / parse_comment / FilterVisitor that (for every input) an unknown-lint filter, a global filter after code and a same-piece same-lint filter each yield an invalid_lint_filter failure at the offending comment, that a rejected global filter leaves the instruction list, the accepted globals and the conflict state exactly as without it (inert), and that a malformed comment produces no entry. The model is tied to /repo by the same correspondence as C08 (parse_comment on generated texts incl. Unicode spaces; visit events of the real traversal; failures compared exactly, with ranges).",
    note="Trusted: as C08. Comments in the leading trivia of tokens that start no visited node (before else/end/until/`}`) are claimed by no node: class F2, listed open."),
